@@ -231,6 +231,45 @@ EvB64Poly(e) ==
   \cup Fail("poly_again_same", e.p_again = e.p_before)
   \cup Fail("select_same", e.sel_after = e.sel_before)
 
+(* ---- C09 / C18: call histories over a store of live objects ------------------------------------- *)
+\* the named deviation of the API machine (PuanAPI.Leak): which bounds a dictionary overwrites
+RECURSIVE LeakT(_, _)
+LeakT(n, D) ==
+  IF IsAtom(n) THEN n
+  ELSE LET own == IF Has(D, n.id) THEN D[n.id] ELSE <<n.lo, n.hi>>
+           n1 == [n EXCEPT !.lo = own[1], !.hi = own[2]]
+       IN IF Const(own) THEN n1
+          ELSE [n1 EXCEPT !.kids = [ i \in DOMAIN n.kids |-> LeakT(n.kids[i], D) ]]
+KnownMarkers == {"KNOWN_assume_own_id_leak"}
+DictOps == {"evaluate", "evaluate_all", "assume"}
+\* one step: [h, op, dict, before, after, res, res_fresh, hooks, ...]; taint = handles whose state a known deviation changed
+StepV(s, taint) ==
+  LET bf == PairsFn(s.before)  af == PairsFn(s.after)
+      D == PairsFn(s.dict)
+      \* add() re-binds its handle to the new configurator; the old one is observed through old_after and stays in the store
+      rebound == IF s.op = "add" /\ ~s.raised /\ ~s.refused THEN {s.h} ELSE {}
+      changed == { h \in DOMAIN bf \ rebound : h \notin DOMAIN af \/ af[h] # bf[h] }
+      \* the known deviation: the dictionary of THIS call overwrote bounds of sub-propositions it names; objects that share
+      \* sub-objects with the called one (an extended configurator and its original) see the same overwrite
+      known == { h \in changed : s.op \in DictOps /\ h \in DOMAIN af /\ af[h] = LeakT(bf[h], D) /\ (s.h \in changed \/ h = s.h) }
+  IN [ v |-> Fail("store_unchanged", changed \ known = {})
+             \cup (IF known # {} THEN {"KNOWN_assume_own_id_leak"} ELSE {})
+             \cup Fail("no_unexplained_overwrite", \A k \in DOMAIN s.hooks :
+                         s.op \in DictOps /\ s.hooks[k].id \in DOMAIN D /\ s.hooks[k].new = D[s.hooks[k].id])
+             \cup Fail("result_as_fresh", s.h \in taint \/ s.res = s.res_fresh)
+             \cup (IF s.op = "add" /\ ~s.raised /\ s.h \notin taint THEN
+                     Fail("refused_iff_clash", s.refused <=> (s.rule_id \in { bf[s.h].kids[i].id : i \in DOMAIN bf[s.h].kids }))
+                     \cup (IF s.refused THEN {} ELSE
+                           Fail("is_direct_build", s.res = s.res_fresh)
+                           \cup Fail("id_kept", s.res.node.id = bf[s.h].id)
+                           \cup Fail("old_unchanged", s.old_after = bf[s.h]))
+                   ELSE {}),
+       t |-> taint \cup known ]
+RECURSIVE HistV(_, _, _)
+HistV(steps, k, taint) == IF k > Len(steps) THEN {}
+                          ELSE LET r == StepV(steps[k], taint) IN r.v \cup HistV(steps, k + 1, r.t)
+EvHistory(e) == HistV(e.steps, 1, {})
+
 (* ---- purity of the call on the object it was made on (C09, on every event that logs it) *)
 EvPure(e) == IF "after" \in DOMAIN e THEN Fail("store_unchanged", e.after = e.model) ELSE {}
 
@@ -248,6 +287,7 @@ Verdict(e) ==
      [] e.op = "json"      -> EvJson(e)
      [] e.op = "b64"       -> EvB64(e)
      [] e.op = "b64poly"   -> EvB64Poly(e)
+     [] e.op = "history"   -> EvHistory(e)
      [] e.op = "exc"       -> {"no_exception"}
      [] e.op \in PolyOpNames -> PolyVerdict(e)
      [] e.op \in PrioOpNames -> PrioVerdict(e)
@@ -258,9 +298,11 @@ Init == l = 1
 Step == /\ l <= Len(Trace)
         /\ LET e == Trace[l]
                bad == Verdict(e)
-           IN IF bad = {} THEN TRUE
-              ELSE IF "outside_domain" \in bad THEN PrintT(<<"INFO", e.tid, "outside_domain">>)
-              ELSE PrintT(<<"REJECT", e.tid, bad>>)
+               real == bad \ KnownMarkers
+           IN /\ IF real = {} THEN TRUE
+                 ELSE IF "outside_domain" \in real THEN PrintT(<<"INFO", e.tid, "outside_domain">>)
+                 ELSE PrintT(<<"REJECT", e.tid, real>>)
+              /\ IF bad \cap KnownMarkers = {} THEN TRUE ELSE PrintT(<<"KNOWN", e.tid, bad \cap KnownMarkers>>)
         /\ l' = l + 1
 Spec == Init /\ [][Step]_vars
 AllConsumed == TLCGet("stats").diameter - 1 = Len(Trace)
